@@ -69,6 +69,11 @@ pub struct Scenario {
     /// during the run) is given several full cycles after the faults stopped
     #[serde(default)]
     pub closing_mode: String,
+    /// before the closing phase every running node issues one write at level None into a probe
+    /// keyspace; a few seconds later (no anti-entropy involved yet) every other running node must
+    /// hold it: direct replication addresses exactly the live peers
+    #[serde(default)]
+    pub probe_direct: bool,
 }
 
 pub struct C01;
@@ -89,6 +94,11 @@ pub struct RunResult {
     pub membership_diffs: Vec<String>,
     /// per node: where reads through the store handle differ from the node's store at quiescence
     pub read_diffs: BTreeMap<u8, Vec<String>>,
+    /// real-membership mode: what the membership layers still got wrong 240 simulated seconds after
+    /// the last fault (empty = every node reports every running node at its current address)
+    pub membership_stale: Vec<String>,
+    /// probe_direct: live peers a probe write did not reach by direct replication
+    pub direct_misses: Vec<String>,
 }
 
 /// real-membership mode: (node -> ids the membership layer reports, with addresses)
@@ -196,6 +206,7 @@ pub fn run_cluster(sc: &Scenario, prop: &str) -> Result<RunResult, String> {
 
     let real = sc.cfg.real_membership;
     let mut membership_diffs: Vec<String> = Vec::new();
+    let mut membership_stale: Vec<String> = Vec::new();
     step(&mut cl, BOOT_MS)?;
     if real {
         // the cluster forms by gossip
@@ -344,6 +355,17 @@ pub fn run_cluster(sc: &Scenario, prop: &str) -> Result<RunResult, String> {
         // evaluated once its views stopped moving
         let complete = wait_membership_complete(&mut cl, 240_000)?;
         membership_diffs.extend(membership_sums(&mut cl, "after the faults stopped", &mut out)?);
+        if !complete {
+            let want: BTreeMap<u8, SocketAddr> = {
+                let sh = cl.shared.borrow();
+                sh.up.iter().filter_map(|n| sh.addrs.get(n).map(|a| (*n, *a))).collect()
+            };
+            for (n, v) in layer_views(&cl) {
+                if v != want {
+                    membership_stale.push(format!("node {n} reports {:?} but the running nodes are {:?}", v, want));
+                }
+            }
+        }
         if complete {
             out.probe("real_membership_complete_after_faults");
             closing_mode = "background".into();
@@ -354,6 +376,79 @@ pub fn run_cluster(sc: &Scenario, prop: &str) -> Result<RunResult, String> {
             closing_mode = "explicit".into();
         }
     }
+    // ---- direct replication probe (before any closing exchange) ----
+    let mut direct_misses: Vec<String> = Vec::new();
+    let mut probe_direct = sc.probe_direct;
+    if probe_direct {
+        // the probe judges nodes that have known the full membership for a while: a node needs a
+        // moment after (re)starting before its store has been told about its peers
+        let deadline = cl.elapsed_ms() + 15_000;
+        loop {
+            let now = cl.elapsed_ms();
+            let settled = {
+                let sh = cl.shared.borrow();
+                let want: BTreeSet<u8> = sh.up.iter().copied().collect();
+                sh.up.iter().all(|n| match sh.views_hist.get(n).and_then(|h| h.last()) {
+                    Some((t, v)) => *t + 3_000 <= now && *v == want,
+                    None => false,
+                })
+            };
+            if settled {
+                break;
+            }
+            if now >= deadline {
+                probe_direct = false;
+                out.probe("direct_replication_probe_skipped_membership_not_settled");
+                if std::env::var_os("DCSIM_DEBUG").is_some() {
+                    let sh = cl.shared.borrow();
+                    eprintln!("probe skipped at {now}: up={:?} views={:?}", sh.up, sh.views_hist.iter().map(|(n, h)| (*n, h.last().cloned())).collect::<Vec<_>>());
+                }
+                break;
+            }
+            step(&mut cl, now + 250)?;
+        }
+    }
+    if probe_direct {
+        // the faults are over: a planned storage failure must not swallow the probe itself
+        for st in cl.shared.borrow().stores.values() {
+            let mut st = st.st.lock();
+            st.faults.clear();
+            st.read_faults.clear();
+        }
+        let up_now: Vec<u8> = cl.shared.borrow().up.iter().copied().collect();
+        let base_id = 1_000_000usize;
+        for (i, n) in up_now.iter().enumerate() {
+            cl.send_cmd(*n, Cmd::Op { op_id: base_id + i, spec: OpSpec { kind: "put".into(), ks: "zz-probe".into(), ids: vec![*n as u64], level: "None".into(), dup: false } });
+        }
+        // one batch interval (1 s) plus transport; far below any repair interval used with it
+        let t = cl.elapsed_ms();
+        step(&mut cl, t + 4_000)?;
+        let self_now = cl.elapsed_ms();
+        let sh = cl.shared.borrow();
+        for n in &up_now {
+            let written = row_of(&sh.stores[n], "zz-probe", *n as u64).is_some();
+            if !written {
+                continue;
+            }
+            for m in &up_now {
+                if m != n && row_of(&sh.stores[m], "zz-probe", *n as u64).is_none() {
+                    let op = sh.ops.iter().find(|o| o.node == *n && o.spec.ks == "zz-probe");
+                    direct_misses.push(format!(
+                        "a level-None write on node {n} (invoked at {:?} ms, returned {:?} with {:?}) had not reached live node {m} (address {:?}) by {} ms; node {n}'s membership layer reports {:?}",
+                        op.map(|o| o.invoked_ms),
+                        op.and_then(|o| o.returned_ms),
+                        op.and_then(|o| o.result.clone()),
+                        sh.addrs.get(m),
+                        self_now,
+                        sh.views.get(n)
+                    ));
+                }
+            }
+        }
+        drop(sh);
+        out.probe("direct_replication_probed");
+    }
+
     if closing_mode == "background" {
         if sc.cfg.repair_interval_ms > 10_000 {
             return Err("background closing needs a running poller (repair interval <= 10 s)".into());
@@ -449,8 +544,16 @@ pub fn run_cluster(sc: &Scenario, prop: &str) -> Result<RunResult, String> {
     for n in &up_now {
         cl.send_cmd(*n, Cmd::Snapshot { snap_id: 1 });
     }
+    // (reads and scans of a slow store take their time)
     let t = cl.elapsed_ms();
     step(&mut cl, t + 300)?;
+    for _ in 0..40 {
+        if cl.shared.borrow().snapshots.keys().filter(|(s, _)| *s == 1).count() >= up_now.len() {
+            break;
+        }
+        let t = cl.elapsed_ms();
+        step(&mut cl, t + 100)?;
+    }
     let answered = cl.shared.borrow().snapshots.keys().filter(|(s, _)| *s == 1).count();
     out.probe_n("set_store_snapshots_taken", answered as u64);
     if answered < up_now.len() {
@@ -507,7 +610,7 @@ pub fn run_cluster(sc: &Scenario, prop: &str) -> Result<RunResult, String> {
     let cfg = sc.cfg.clone();
     drop(sh);
     drop(cl);
-    Ok(RunResult { out, ops, issued, final_rows, cfg, views_hist, set_store_diffs, membership_diffs, read_diffs })
+    Ok(RunResult { out, ops, issued, final_rows, cfg, views_hist, set_store_diffs, membership_diffs, read_diffs, membership_stale, direct_misses })
 }
 
 /// The C01 oracle.
@@ -615,7 +718,7 @@ pub fn gen_cluster_scenario(rng: &mut rand::rngs::SmallRng, k: &GenKnobs) -> Sce
     if rng.gen_bool(0.35) {
         jitter_sites.push(("store.before_local_apply".to_string(), rng.gen_range(1..40)));
     }
-    let cfg = ClusterCfg {
+    let mut cfg = ClusterCfg {
         nodes,
         tick_ms: *[1u64, 2, 5].choose(rng).unwrap(),
         latency_ms: (1, *[2u64, 10, 40, 150].choose(rng).unwrap()),
@@ -650,7 +753,7 @@ pub fn gen_cluster_scenario(rng: &mut rand::rngs::SmallRng, k: &GenKnobs) -> Sce
         }
         idv.dedup();
         let level = if rng.gen_bool(k.level_bias_none) { "None" } else { levels[rng.gen_range(0..levels.len())] };
-        events.push(Ev::Op { t, node: *ids.choose(rng).unwrap(), spec: OpSpec { kind: kind.to_string(), ks: kss.choose(rng).unwrap().clone(), ids: idv, level: level.to_string() } });
+        events.push(Ev::Op { t, node: *ids.choose(rng).unwrap(), spec: OpSpec { kind: kind.to_string(), ks: kss.choose(rng).unwrap().clone(), ids: idv, level: level.to_string(), dup: kind.ends_with("many") && kind.starts_with("put") && rng.gen_bool(0.15) } });
     }
     // fault kinds: a random subset per run (swarm)
     let f_hold = rng.gen_bool(0.5);
@@ -684,9 +787,29 @@ pub fn gen_cluster_scenario(rng: &mut rand::rngs::SmallRng, k: &GenKnobs) -> Sce
                 }
             }
             events.push(Ev::Restart { t: back, node });
+            // "start-up window": the peers learn about the restart at once and write to the node
+            // while it is still scanning its store (its RPC server answers, its store services
+            // may not be there yet)
+            let startup_window = rng.gen_bool(0.4);
             for p in &ids {
                 if *p != node {
-                    events.push(Ev::View { t: back + rng.gen_range(50..1_500), node: *p, members: ids.clone() });
+                    let lag = if startup_window { rng.gen_range(0..40) } else { rng.gen_range(50..1_500) };
+                    if startup_window {
+                        let others: Vec<u8> = ids.iter().copied().filter(|x| *x != node).collect();
+                        events.push(Ev::View { t: t + rng.gen_range(0..100).min(back - t - 1), node: *p, members: others });
+                    }
+                    events.push(Ev::View { t: back + lag, node: *p, members: ids.clone() });
+                }
+            }
+            if startup_window {
+                if let Some(n) = cfg.nodes.iter_mut().find(|n| n.id == node) {
+                    n.storage_scan_latency_max_ms = rng.gen_range(40..250);
+                }
+                let peers: Vec<u8> = ids.iter().copied().filter(|x| *x != node).collect();
+                for _ in 0..rng.gen_range(2..=5) {
+                    let kind = ["put", "put_many", "del"].choose(rng).unwrap();
+                    let level = ["All", "Quorum", "EachQuorum", "One", "Two"].choose(rng).unwrap();
+                    events.push(Ev::Op { t: back + rng.gen_range(10..700), node: *peers.choose(rng).unwrap(), spec: OpSpec { kind: kind.to_string(), ks: kss.choose(rng).unwrap().clone(), ids: vec![rng.gen_range(0..nids)], level: level.to_string(), dup: false } });
                 }
             }
         }
@@ -722,7 +845,7 @@ pub fn gen_cluster_scenario(rng: &mut rand::rngs::SmallRng, k: &GenKnobs) -> Sce
     }
     events.sort_by_key(|e| e.t());
     let closing_mode = if !explicit_only && rng.gen_bool(0.5) { "background" } else { "explicit" };
-    Scenario { cfg, events, closing_seed: rng.gen(), closing_parallel: rng.gen_bool(0.4), settle_ms: if rng.gen_bool(0.5) { 0 } else { rng.gen_range(0..2_500) }, closing_mode: closing_mode.to_string() }
+    Scenario { cfg, events, closing_seed: rng.gen(), closing_parallel: rng.gen_bool(0.4), settle_ms: if rng.gen_bool(0.5) { 0 } else { rng.gen_range(0..2_500) }, closing_mode: closing_mode.to_string(), probe_direct: false }
 }
 
 /// "Burst" family: a node whose direct replication reaches nobody (its view is empty) issues
@@ -761,7 +884,7 @@ pub fn gen_burst_scenario(rng: &mut rand::rngs::SmallRng) -> Scenario {
         let ks = kss.choose(rng).unwrap().clone();
         for _ in 0..rng.gen_range(2..=6) {
             let kind = if rng.gen_bool(0.75) { "put" } else { "del" };
-            events.push(Ev::Op { t, node: w, spec: OpSpec { kind: kind.to_string(), ks: ks.clone(), ids: vec![rng.gen_range(0..nids)], level: "None".to_string() } });
+            events.push(Ev::Op { t, node: w, spec: OpSpec { kind: kind.to_string(), ks: ks.clone(), ids: vec![rng.gen_range(0..nids)], level: "None".to_string(), dup: false } });
             t += rng.gen_range(0..4);
         }
         t += rng.gen_range(100..2_500);
@@ -779,7 +902,7 @@ pub fn gen_burst_scenario(rng: &mut rand::rngs::SmallRng) -> Scenario {
         }
     }
     events.sort_by_key(|e| e.t());
-    Scenario { cfg, events, closing_seed: rng.gen(), closing_parallel: false, settle_ms: 0, closing_mode: "background".to_string() }
+    Scenario { cfg, events, closing_seed: rng.gen(), closing_parallel: false, settle_ms: 0, closing_mode: "background".to_string(), probe_direct: false }
 }
 
 /// "Real membership" family: every node is built with the public API alone
@@ -833,7 +956,7 @@ pub fn gen_real_scenario(rng: &mut rand::rngs::SmallRng) -> Scenario {
         idv.sort();
         idv.dedup();
         let level = if rng.gen_bool(0.4) { "None" } else { levels[rng.gen_range(0..levels.len())] };
-        events.push(Ev::Op { t, node: *ids.choose(rng).unwrap(), spec: OpSpec { kind: kind.to_string(), ks: kss.choose(rng).unwrap().clone(), ids: idv, level: level.to_string() } });
+        events.push(Ev::Op { t, node: *ids.choose(rng).unwrap(), spec: OpSpec { kind: kind.to_string(), ks: kss.choose(rng).unwrap().clone(), ids: idv, level: level.to_string(), dup: kind.ends_with("many") && kind.starts_with("put") && rng.gen_bool(0.15) } });
     }
     if rng.gen_bool(0.6) {
         for _ in 0..rng.gen_range(1..=2) {
@@ -880,7 +1003,7 @@ pub fn gen_real_scenario(rng: &mut rand::rngs::SmallRng) -> Scenario {
         events.push(Ev::ClockJump { t: rng.gen_range(0..span), node: *ids.choose(rng).unwrap(), delta_ms: rng.gen_range(-120_000..120_000) });
     }
     events.sort_by_key(|e| e.t());
-    Scenario { cfg, events, closing_seed: rng.gen(), closing_parallel: false, settle_ms: 0, closing_mode: "background".to_string() }
+    Scenario { cfg, events, closing_seed: rng.gen(), closing_parallel: false, settle_ms: 0, closing_mode: "background".to_string(), probe_direct: false }
 }
 
 pub fn cluster_components() -> Vec<(&'static str, &'static str)> {
